@@ -80,6 +80,7 @@ type Guard struct {
 	Expr   Expr
 	Src    string
 	Name   string // optional label
+	Label  string // `as <label>`: all sites of a function form one obligation "guard:<label>"
 	In     string // optional: restrict to call sites inside this function
 	Line   int
 	Ord    int // optional: only the Ord-th call of the callee within the enclosing function
@@ -517,6 +518,11 @@ func parseGuard(rest string) (*Guard, error) {
 	}
 	if len(head) > 3 && head[2] == "in" {
 		g.In = head[3] // only sites inside this function (key suffix match)
+		if len(head) > 5 && head[4] == "as" {
+			// labelled guard: the obligations of all matching sites of one function are discharged as ONE obligation
+			// named after the label, so its name does not depend on the order or number of the sites
+			g.Label = head[5]
+		}
 	} else if len(head) > 2 {
 		g.Name = head[2]
 	}
